@@ -50,7 +50,7 @@ func main() {
 		},
 		Run: run,
 		MustObserve: []string{"hierarchy_flushes_compared", "written_bytes_compared_with_storage", "dirty_lines_written_back_by_flush", "drains_started_with_requests_in_flight",
-			"filter_flushes_checked", "filter_flushes_leaving_some_dirty_lines", "sibling_flushes_compared", "sibling_lines_dirty_in_both_caches"},
+			"filter_flushes_checked", "filter_flushes_leaving_some_dirty_lines", "filter_flushes_after_an_earlier_flush_and_enable", "sibling_flushes_compared", "sibling_lines_dirty_in_both_caches"},
 	})
 }
 
@@ -291,30 +291,69 @@ func filterCase(c *kit.Case, p params) {
 	cfg := sim.StackCfg{Levels: []sim.LevelCfg{lc}, Mem: sim.MemCfg{Kind: "ideal", Count: 1, Latency: 1 + rng.Intn(10)}, PortBuf: 1 + rng.Intn(4), WithCtrl: true,
 		Drivers: []sim.DriverSpec{{Seed: uint64(rng.Int63()), NumReqs: p.NumReqs, MaxInflight: 1 + rng.Intn(8), IssuePerTick: 1 + rng.Intn(2), LineSize: line,
 			NumLines: uint64(4 + rng.Intn(28)), NumPIDs: 2, PIDStride: 1 << 20, SendPID: true, ReadPct: 30, FullPct: 30, MaskPct: 20}}}
-	stopAt := 20 + rng.Intn(p.NumReqs-20)
+	// 1-3 rounds of (traffic, drain, filtered flush, enable) on the same cache: later flushes must not be
+	// influenced by what earlier ones wrote back.
+	rounds := 1 + rng.Intn(3)
+	stops := make([]int, rounds)
+	for i := range stops {
+		lo := 20 + i*(p.NumReqs-20)/rounds
+		hi := 20 + (i+1)*(p.NumReqs-20)/rounds
+		stops[i] = lo + rng.Intn(hi-lo)
+	}
 	s := sim.BuildStack(cfg, r.WorkDir)
 	defer s.Close()
 	w := s.WB[0]
 	d := s.Drivers[0]
 	d.OnError = func(key, msg string) { c.Fail("flush/"+key, map[string]any{"msg": msg, "cfg": cfg}) }
-	n := 0
+	n, round := 0, 0
 	d.OnRsp = func(sim.RspEvent) {
 		n++
-		if n == stopAt {
+		if round < rounds && n == stops[round] {
 			d.State.Halt = true
 			s.Ctrl.Send(sim.CtrlCmd{Dst: ctrlPort(w), Command: memcontrolprotocol.CmdDrain})
 		}
 	}
 	s.Start()
-	if err := s.Engine.Run(); err != nil {
-		c.Failf("flush/engine-error", "%v", err)
-		return
+	type blk struct {
+		valid, dirty bool
 	}
-	if n < stopAt || len(s.Ctrl.Acks) != 1 || !s.Ctrl.Acks[0].Rsp.Success {
-		c.Fail("flush/control-request-not-acknowledged", map[string]any{"cmd": "Drain", "acks": s.Ctrl.Acks, "responses": n, "cfg": cfg})
-		return
+	for ; round < rounds; round++ {
+		stopAt := stops[round]
+		acks0 := len(s.Ctrl.Acks)
+		if round > 0 {
+			d.State.Halt = false
+			d.TickLater()
+		}
+		if err := s.Engine.Run(); err != nil {
+			c.Failf("flush/engine-error", "%v", err)
+			return
+		}
+		if n < stopAt || len(s.Ctrl.Acks) != acks0+1 || !s.Ctrl.Acks[acks0].Rsp.Success {
+			c.Fail("flush/control-request-not-acknowledged", map[string]any{"cmd": "Drain", "round": round, "acks": s.Ctrl.Acks, "responses": n, "cfg": cfg})
+			return
+		}
+		if !filterRound(c, p, s, cfg, line, round, stops) {
+			return
+		}
+		if round > 0 {
+			r.Count("filter_flushes_after_an_earlier_flush_and_enable", 1)
+		}
 	}
-	// snapshot
+	// finish the stream: lines must still serve correct data
+	d.State.Halt = false
+	d.TickLater()
+	s.Engine.Run()
+	if !d.Done() {
+		c.Fail("flush/unanswered-after-enable", map[string]any{"issued": d.State.Issued, "outstanding": d.State.Inflight, "cfg": cfg, "stops": stops})
+	}
+}
+
+// filterRound: the cache is drained; snapshot, filtered flush, checks, enable.
+func filterRound(c *kit.Case, p params, s *sim.Stack, cfg sim.StackCfg, line uint64, round int, stops []int) bool {
+	r := c.R
+	rng := c.Rng
+	w := s.WB[0]
+	d := s.Drivers[0]
 	type blk struct {
 		valid, dirty bool
 	}
@@ -382,15 +421,16 @@ func filterCase(c *kit.Case, p params) {
 			want[k] = true
 		}
 	}
-	desc := map[string]any{"cfg": cfg, "stop_after_responses": stopAt, "filter_addresses": addrs, "filter_pid": pid, "dirty_lines": dirty,
+	desc := map[string]any{"cfg": cfg, "stops_after_responses": stops, "round": round, "filter_addresses": addrs, "filter_pid": pid, "dirty_lines": dirty,
 		"state_at_snapshot": map[string]any{"evicting_list": w.State.EvictingList, "pending_evictions": w.State.PendingEvictionIndices, "inflight_evictions": w.State.InflightEvictionIndices,
 			"inflight_fetch": w.State.InflightFetchIndices, "driver_outstanding": len(d.State.Inflight), "bottom_out": w.GetPortByName("Bottom").NumOutgoing(), "top_in": w.GetPortByName("Top").NumIncoming()}}
 	c.Desc(desc)
 	// observe the writes leaving the cache during the flush window
 	wtap := sim.AttachTap([]messaging.Port{w.GetPortByName("Bottom")}, s.Engine.CurrentTime, true)
 	if !sendAndRun(c, s, cfg, []sim.CtrlCmd{{Dst: ctrlPort(w), Command: memcontrolprotocol.CmdFlush, Addresses: addrs, PID: pid}}, true) {
-		return
+		return false
 	}
+	wtap.Keep = false
 	r.Count("filter_flushes_checked", 1)
 	got := map[lineKey]int{}
 	for _, rec := range wtap.Recs {
@@ -469,20 +509,15 @@ func filterCase(c *kit.Case, p params) {
 		}
 	}
 	if len(got) > 0 {
-		j, _ := json.Marshal(desc)
+		j, _ := json.Marshal(map[string]any{"cfg": cfg, "stops": stops}) // one key per case, whichever round wrote lines back
 		c.Nontrivial(string(j))
 	}
 	r.Distinct("filter_kinds", fmt.Sprint(kind))
-	// finish the stream: lines must still serve correct data
-	sendAndRun(c, s, cfg, []sim.CtrlCmd{{Dst: ctrlPort(w), Command: memcontrolprotocol.CmdEnable}}, true)
-	d.State.Halt = false
-	d.TickLater()
-	s.Engine.Run()
-	if !d.Done() {
-		c.Fail("flush/unanswered-after-enable", map[string]any{"issued": d.State.Issued, "outstanding": d.State.Inflight, "desc": desc})
+	if round == len(stops)-1 {
+		c.Sample(desc)
 	}
-	c.Sample(desc)
 	_ = timing.VTimeInPicoSec(0)
+	return sendAndRun(c, s, cfg, []sim.CtrlCmd{{Dst: ctrlPort(w), Command: memcontrolprotocol.CmdEnable}}, true)
 }
 
 // siblingCase: two write-back caches over one shared lower level, each with its own driver; the drivers
